@@ -101,7 +101,9 @@ func optionDiscs(c *hist.Case, run *hist.Run, m *hist.Model, r *evid.Rec, pre st
 					// (seeded change C04-e: the merge of the chosen shared subscription drops accumulated identifiers).
 					// Only the identifier clause is asserted here, and only for foreign messages without No Local in play.
 					var ids []uint32
-					sole := p.Version == 5 && cid != ti.CID
+					// (asserted for C04 only: C20 re-uses this oracle after a restart with a generator that also re-subscribes
+					// shared filters with No Local - refused, an open finding of C23 -, which this clause has not been vetted for)
+					sole := pre == "C04" && p.Version == 5 && cid != ti.CID
 					nShared := 0 // exactly one matching shared subscription: how the broker combines several chosen ones is not stated
 					for f, st := range sn.Subs[cid] {
 						if !reftopic.MatchSub(f, ti.Topic) {
